@@ -14,6 +14,8 @@
 
 # from copy import deepcopy
 
+from typing import Dict
+
 from sympy import Symbol
 from sympy.logic import And, Not, Or, Xor
 from sympy.logic.boolalg import Boolean, BooleanFalse, BooleanTrue
@@ -41,6 +43,7 @@ class InternalCompiler(Compiler):
     ) -> QCircuit:
         qc = QCircuitEnhanced(name=name)
         self.expqmap = ExpQMap()
+        self.const_qubits: Dict[bool, int] = {}
         # self.remaining_exps = deepcopy(exprs)
 
         # 1. We first add a qubit for every input bit
@@ -86,6 +89,18 @@ class InternalCompiler(Compiler):
 
         return qc
 
+    def const_qubit(self, qc: QCircuitEnhanced, value: bool) -> int:
+        """Return the qubit holding the constant value, creating it if needed. The qubit is
+        known by its index: a variable of the function may be called TRUE or FALSE too"""
+        if value not in self.const_qubits:
+            name = "TRUE" if value else "FALSE"
+            while name in qc:
+                name += "_"
+            self.const_qubits[value] = qc.add_qubit(name)
+            if value:
+                qc.x(self.const_qubits[value])
+        return self.const_qubits[value]
+
     def compile_expr(  # noqa: C901
         self, qc: QCircuitEnhanced, expr: Boolean, dest=None, sym: Symbol = None
     ) -> int:
@@ -95,17 +110,12 @@ class InternalCompiler(Compiler):
         if isinstance(expr, BooleanFalse):
             if dest is not None:
                 return dest
-            if "FALSE" not in qc:
-                qc.add_qubit("FALSE")
-            return qc["FALSE"]
+            return self.const_qubit(qc, False)
         elif isinstance(expr, BooleanTrue):
             if dest is not None:
                 qc.x(dest)
                 return dest
-            if "TRUE" not in qc:
-                qc.add_qubit("TRUE")
-                qc.x(qc["TRUE"])
-            return qc["TRUE"]
+            return self.const_qubit(qc, True)
 
         # 2. If expr is a symbol
         elif isinstance(expr, Symbol):
